@@ -53,6 +53,33 @@ def analyze(prog):
                                 take = int(o[1])
                             except Exception:
                                 pass
+            if nm == "iter" and cc.args:
+                # `block[..N].iter()`: a prefix slice bounded by a constant (or min(CONST, len))
+                for o2 in b.origins(cc.args[0], through_calls=("::deref", "::as_ref", "::as_slice")):
+                    if o2[0] == "call" and o2[2].split("::")[-1] in ("index", "get", "get_unchecked"):
+                        ic = [x for x in b.calls if x.bb == o2[1]][0]
+                        for o3 in b.origins(ic.args[1]):
+                            if o3[0] == "agg":
+                                st_ = b.stmts(o3[1])[o3[2]]
+                                kind = st_[2][1]
+                                if isinstance(kind, dict) and "RangeTo" in kind.get("adt", ""):
+                                    endop = st_[2][2][-1]
+                                    v = b.eval_int(endop)
+                                    if v is None and endop[0] != "k":
+                                        for o4 in b.origins(endop):
+                                            if o4[0] == "call" and o4[2].split("::")[-1] == "min":
+                                                mc = [x for x in b.calls if x.bb == o4[1]][0]
+                                                ks = [b.eval_int(a) for a in mc.args if b.eval_int(a) is not None]
+                                                if ks:
+                                                    v = min(ks)
+                                            elif o4[0] == "const":
+                                                try:
+                                                    v = int(o4[1])
+                                                except Exception:
+                                                    pass
+                                    if v is not None:
+                                        take = v
+                                        chain.append("[..%d]" % v)
             if nm == "iter" or not cc.args:
                 break
             cur = cc.args[0]
